@@ -400,8 +400,27 @@ func (p *service) onPublish(msg *message.PublishMessage) error {
 	for i, s := range p.subs {
 		if s != nil {
 			fn := s.(*OnPublishFunc)
+			qos := p.qoss[i]
+
+			// A Subscribe request of a client registers one callback for all of
+			// its filters. A message that matches several of them is handed to
+			// that callback once, with the highest QoS these filters allow (the
+			// order of p.subs is not defined). A broker sends one copy per
+			// subscription.
+			if p.client {
+				if subscriberIn(p.subs[:i], s) {
+					continue
+				}
+
+				for j := i + 1; j < len(p.subs); j++ {
+					if p.subs[j] == s && p.qoss[j] > qos {
+						qos = p.qoss[j]
+					}
+				}
+			}
+
 			// use the possibly downgraded qos
-			msg.SetQoS(p.qoss[i])
+			msg.SetQoS(qos)
 			if err := (*fn)(msg); err != nil {
 				log.Warningf("%v", err)
 			}
@@ -414,4 +433,15 @@ func (p *service) onPublish(msg *message.PublishMessage) error {
 	}
 
 	return nil
+}
+
+// subscriberIn reports whether the subscriber s occurs in subs.
+func subscriberIn(subs []interface{}, s interface{}) bool {
+	for _, o := range subs {
+		if o == s {
+			return true
+		}
+	}
+
+	return false
 }
